@@ -126,6 +126,7 @@ GRAPHS = {
     "missingleaf": {"A": ["B"], "B": ["C"], "C": [], "D": []},
     "badleaf": {"A": ["B"], "B": ["C"], "C": [], "D": []},
     "binaryleaf": {"A": ["B"], "B": ["C"], "C": [], "D": []},      # C exists but is not UTF-8 text: the fetch fails
+    "headeronly": {"A": ["B"], "B": ["C"], "C": [], "D": []},      # D is a document without any Section
 }
 PROGS = {
     "dA_lA": [("deferred_load", "A"), ("load", "A")],
@@ -138,6 +139,7 @@ PROGS = {
     "dA_rA_lA_lA": [("deferred_load", "A"), ("refresh", "A"), ("load", "A"), ("load", "A")],
     "lC_rC_lC_lC": [("load", "C"), ("refresh", "C"), ("load", "C"), ("load", "C")],
     "dB_rA_lB_lA": [("deferred_load", "B"), ("refresh", "A"), ("load", "B"), ("load", "A")],
+    "lD_dD_lD_lD": [("load", "D"), ("deferred_load", "D"), ("load", "D"), ("load", "D")],
 }
 REFRESH_PROGS = [p for p, ops in PROGS.items() if any(o == "refresh" for o, _ in ops)]
 
@@ -151,6 +153,8 @@ def parsable(graph, x):
 
 
 def resource_text(graph, x, urls, old=False):
+    if graph == "headeronly" and x == "D":
+        return '<?xml version="1.0" encoding="UTF-8"?>\n<odML version="1.1"><author>%snobody</author></odML>' % ("OLD" if old else "")
     if not parsable(graph, x):
         return '<odML version="1.1"><section><name>sec%s</name>' % x
     body = '<property><name>%sp%s</name><value>%s</value><type>string</type></property>' % ("OLD" if old else "", x, x)
@@ -207,6 +211,8 @@ def expected_sig(graph, x):
     """what loading x and finalising it has to give, computed from the graph alone"""
     if not (fetchable(graph, x) and parsable(graph, x)):
         return "none"
+    if graph == "headeronly" and x == "D":
+        return json.dumps({"secs": []}, sort_keys=True)
     def content(y):
         if not (fetchable(graph, y) and parsable(graph, y)):
             return {"props": [], "secs": []}
